@@ -289,7 +289,14 @@ func cmdSnapRand(args []string) {
 						mu.Unlock()
 					}
 				}
-				return len(fails) > 0
+				// differences that the record codec alone reproduces do not end the scenario (the expected sets do not
+				// depend on what the code returned); anything else does
+				for _, f := range fails {
+					if !strings.HasPrefix(f.Sig, "C10:rec:") {
+						return true
+					}
+				}
+				return false
 			}
 			// one process: (optionally) reload check, then `blocks` blocks of adds and spends, dump, close
 			session := func(optC bool, blocks int, perBlock int, tag string, reloaded bool) bool {
